@@ -9,6 +9,7 @@ import (
 	"time"
 
 	"github.com/high-moctane/mocrelay"
+	mocsqlite "github.com/high-moctane/mocrelay/handler/sqlite"
 
 	"verif/harness/internal/abs"
 	"verif/harness/internal/core"
@@ -552,6 +553,24 @@ func mergeCheck(run *core.Run, what string, n int) {
 		run.Add("observations", int64(len(tr.Lines)))
 		distinct.Add(tr.Name)
 	}
+	// the merge of the real handlers (cache, router, SQLite), as cmd/mocrelay composes them
+	for i := 0; i < n/6; i++ {
+		tr, complete := runRealMergeScenario(run, run.Seed*777000+int64(i), what)
+		if tr.Lines == nil {
+			continue
+		}
+		if !complete {
+			run.Violate(what+":real handlers: no reply to the final COUNT within 3s", fmt.Sprintf("%s: %d lines recorded", tr.Name, len(tr.Lines)), map[string]any{"trace": tr.Lines})
+		}
+		if len(tr.Lines) > 170 {
+			run.Add("scenarios_skipped_too_long", 1)
+			continue
+		}
+		traces = append(traces, tr)
+		run.Add("observations", int64(len(tr.Lines)))
+		run.Add("real_children_scenarios", 1)
+		distinct.Add(tr.Name)
+	}
 	out, err := tv.Validate(mergeTraceSpec, nil, traces, 6)
 	if out != nil {
 		run.Add("traces_validated_against_impl", int64(out.Accepted+len(out.Rejects)))
@@ -610,4 +629,219 @@ func mergeCanary(run *core.Run, what string) {
 		return
 	}
 	run.Problem("no canary trace could be produced")
+}
+
+
+// tap wraps a real child handler and records what it receives from the merge
+// (chrecv, after receiving) and what it emits (emits, before offering it to
+// the merge), so that MergeObs can judge the merge of the real handlers.
+type tap struct {
+	idx  int
+	h    mocrelay.Handler
+	rec  *recorder
+	conc *abs.Conc
+	fsOf *fsTable
+	evOf func(string) (abs.Event, bool)
+}
+
+func (t *tap) ServeNostr(ctx context.Context, send chan<- mocrelay.ServerMsg, recv <-chan mocrelay.ClientMsg) error {
+	ctx, cancel := context.WithCancel(ctx)
+	defer cancel()
+	inRecv := make(chan mocrelay.ClientMsg)
+	inSend := make(chan mocrelay.ServerMsg)
+	var wg sync.WaitGroup
+	wg.Add(2)
+	go func() {
+		defer wg.Done()
+		defer close(inRecv)
+		for {
+			select {
+			case <-ctx.Done():
+				return
+			case m, ok := <-recv:
+				if !ok {
+					return
+				}
+				t.rec.log("chrecv", t.idx, absClient(t.conc, m, t.fsOf))
+				select {
+				case inRecv <- m:
+				case <-ctx.Done():
+					return
+				}
+			}
+		}
+	}()
+	go func() {
+		defer wg.Done()
+		for {
+			select {
+			case <-ctx.Done():
+				return
+			case m := <-inSend:
+				t.rec.log("emits", t.idx, absServer(t.conc, m, t.evOf))
+				select {
+				case send <- m:
+				case <-ctx.Done():
+					return
+				}
+			}
+		}
+	}()
+	err := t.h.ServeNostr(ctx, inSend, inRecv)
+	cancel()
+	wg.Wait()
+	return err
+}
+
+// runRealMergeScenario: the merge of the real handlers (cache, router, SQLite -- the
+// composition cmd/mocrelay runs), each behind a tap, driven by a pipelining client.
+func runRealMergeScenario(run *core.Run, seed int64, what string) (tv.Trace, bool) {
+	r := rand.New(rand.NewSource(seed))
+	conc := abs.NewConc()
+	rec := &recorder{}
+	fsOf := &fsTable{m: map[string][]abs.Filter{}}
+	var evMu sync.Mutex
+	evs := map[string]abs.Event{}
+	evOf := func(l string) (abs.Event, bool) { evMu.Lock(); defer evMu.Unlock(); e, ok := evs[l]; return e, ok }
+	st, err := openMemSQL()
+	if err != nil {
+		run.Problem("sqlite: %v", err)
+		return tv.Trace{}, false
+	}
+	sctx, scancel := context.WithCancel(context.Background())
+	defer func() { scancel(); time.Sleep(5 * time.Millisecond); st.Close() }()
+	sqlh, err := mocsqliteNew(sctx, st)
+	if err != nil {
+		run.Problem("sqlite handler: %v", err)
+		return tv.Trace{}, false
+	}
+	children := []mocrelay.Handler{mocrelay.NewCacheHandler(4 + r.Intn(4)), mocrelay.NewRouterHandler(64), sqlh}
+	n := len(children)
+	var hs []mocrelay.Handler
+	for i, c := range children {
+		hs = append(hs, &tap{idx: i + 1, h: c, rec: rec, conc: conc, fsOf: fsOf, evOf: evOf})
+	}
+	h := mocrelay.NewMergeHandler(hs...)
+	ctx, cancel := context.WithCancel(context.Background())
+	defer cancel()
+	send := make(chan mocrelay.ServerMsg)
+	recv := make(chan mocrelay.ClientMsg)
+	done := make(chan error, 1)
+	go func() { done <- h.ServeNostr(ctx, send, recv) }()
+	eoseGot := map[string]chan struct{}{}
+	var egMu sync.Mutex
+	sentinel := make(chan struct{})
+	go func() {
+		for {
+			select {
+			case <-ctx.Done():
+				return
+			case m := <-send:
+				rec.log("cgot", 0, absServer(conc, m, evOf))
+				switch m := m.(type) {
+				case *mocrelay.ServerEOSEMsg:
+					egMu.Lock()
+					if ch, ok := eoseGot[m.SubscriptionID]; ok {
+						select {
+						case <-ch:
+						default:
+							close(ch)
+						}
+					}
+					egMu.Unlock()
+				case *mocrelay.ServerCountMsg:
+					if m.SubscriptionID == sentinelSub {
+						close(sentinel)
+						return
+					}
+				}
+			}
+		}
+	}()
+	offer := func(m mocrelay.ClientMsg) bool {
+		rec.log("csnd", 0, absClient(conc, m, fsOf))
+		select {
+		case recv <- m:
+			return true
+		case <-time.After(5 * time.Second):
+			return false
+		}
+	}
+	tr := tv.Trace{Name: fmt.Sprintf("realmerge-%s-seed%d", what, seed)}
+	tr.Lines = append(tr.Lines, map[string]any{"op": "reset", "n": n})
+	filterChoices := [][]abs.Filter{{{}}, {{Kinds: abs.IntSet{P: true, S: []int64{1}}}}, {{Limit: abs.OptInt{P: true, V: 1}}}, {{Limit: abs.OptInt{P: true, V: 2}, Authors: abs.StrSet{P: true, S: []string{"a", "b"}}}}, {{Kinds: abs.IntSet{P: true, S: []int64{2}}}, {Since: abs.OptInt{P: true, V: 3}}}}
+	g := NewGen(r, "rm")
+	g.SQL = true
+	g.MaxTS = 6
+	nsub := 0
+	stuck := false
+	steps := 5 + r.Intn(6)
+	for i := 0; i < steps && !stuck; i++ {
+		if r.Intn(3) == 0 {
+			time.Sleep(time.Duration(r.Intn(300)) * time.Microsecond)
+		}
+		k := r.Intn(10)
+		switch {
+		case k < 5:
+			var e abs.Event
+			if what == "okcount" && len(g.Hist) > 0 && r.Intn(2) == 0 {
+				e = g.Hist[r.Intn(len(g.Hist))] // repeated id, possibly in flight
+			} else {
+				e = g.Event()
+				e.Tags = nil
+				if e.Kind == 5 || cls(e.Kind) != "regular" {
+					e.Kind = int64(1 + r.Intn(2))
+				}
+			}
+			evMu.Lock()
+			evs[e.ID] = e
+			evMu.Unlock()
+			stuck = !offer(&mocrelay.ClientEventMsg{Event: conc.Event(e, "x")})
+		case k < 8 && what == "req":
+			nsub++
+			s := fmt.Sprintf("s%d", nsub)
+			fs := filterChoices[r.Intn(len(filterChoices))]
+			fsOf.set(s, fs)
+			egMu.Lock()
+			eoseGot[s] = make(chan struct{})
+			ch := eoseGot[s]
+			egMu.Unlock()
+			stuck = !offer(&mocrelay.ClientReqMsg{SubscriptionID: s, ReqFilters: conc.Filters(fs)})
+			if r.Intn(2) == 0 {
+				select {
+				case <-ch:
+				case <-time.After(300 * time.Millisecond):
+				}
+			}
+		case k < 9 && what == "req" && nsub > 0:
+			stuck = !offer(&mocrelay.ClientCloseMsg{SubscriptionID: fmt.Sprintf("s%d", 1+r.Intn(nsub))})
+		default:
+			stuck = !offer(&mocrelay.ClientCountMsg{SubscriptionID: fmt.Sprintf("c%d", r.Intn(2)), ReqFilters: conc.Filters([]abs.Filter{{}})})
+		}
+	}
+	time.Sleep(500 * time.Microsecond)
+	complete := false
+	if !stuck && offer(&mocrelay.ClientCountMsg{SubscriptionID: sentinelSub, ReqFilters: conc.Filters([]abs.Filter{{}})}) {
+		select {
+		case <-sentinel:
+			complete = true
+		case <-time.After(3 * time.Second):
+		}
+	}
+	cancel()
+	select {
+	case <-done:
+	case <-time.After(3 * time.Second):
+	}
+	rec.mu.Lock()
+	tr.Lines = append(tr.Lines, rec.lines...)
+	rec.mu.Unlock()
+	if complete {
+		tr.Lines = append(tr.Lines, map[string]any{"op": "quiesce_replies", "shape": "quiesce: an OK / COUNT / EOSE reply is missing (real handlers)"})
+	}
+	return tr, complete
+}
+
+func mocsqliteNew(ctx context.Context, st *sqlStore) (mocrelay.Handler, error) {
+	return mocsqlite.NewSQLiteHandler(ctx, st.db, &mocsqlite.SQLiteHandlerOption{EventBulkInsertNum: 1, EventBulkInsertDur: time.Hour, MaxLimit: mocsqlite.NoLimit})
 }
